@@ -14,6 +14,9 @@
   tasks.  No bound on any length.
 
   Model after the proposed fix C10-F1 (NaivePBESolver divided by zero on a task without examples).
+
+  Section "restart solver" (after the non-vacuity examples of A and B): RestartPBESolver over
+  MetaPBESolver — theorems `C10_restart_*`, findings C10-F2 / C10-F3 with their witnesses.
 -/
 import PS.Proofs.Solver
 import PS.Proofs.SolverRestartStats
@@ -395,7 +398,6 @@ example : (solve (test .cutoff (dslEv S true) [([2], 7)]) Solver.init [] [C11.Ex
     = [C11.Example.big] := by decide
 end Example
 
---RESTART-BEGIN
 /-! ## restart solver -/
 /-
   RestartPBESolver (synth/pbe/solvers/restart_pbe_solver.py) over MetaPBESolver
@@ -1094,6 +1096,5 @@ example : (restartTags G (uniform G) data 0).map (fun t => (weight t nt0 f, weig
   decide +kernel
 end ExampleG
 end grammar
---RESTART-END
 
 end PS.C10
